@@ -37,6 +37,7 @@ type c10Op struct {
 type c10Case struct {
 	Source string  `json:"source"` // scripted triangle simpulse erroring abaco udp
 	Nchan  int     `json:"nchan"`
+	Dwell  int     `json:"dwell_ms,omitempty"` // let every run last at least this long after its first block (C17 workloads)
 	Ops    []c10Op `json:"ops"`
 }
 
@@ -407,6 +408,9 @@ func c10Run(c c10Case) (v vVerdict) {
 		}
 		if bad := waitBlock(fmt.Sprintf("after start number %d", e.started)); bad != nil {
 			return bad
+		}
+		if c.Dwell > 0 && c.Dwell <= 2000 {
+			time.Sleep(time.Duration(c.Dwell) * time.Millisecond)
 		}
 		// triggers on, so that records (and files) are produced
 		all := make([]int, e.ds.Nchan())
